@@ -327,8 +327,9 @@ Proof. vm_compute. split; reflexivity. Qed.
      wf_ctext t          at most 100 code space ranges, each with equal, non-zero lengths; codes non-empty, CIDs
                          below 2^32; ranges with equal non-zero lengths and first <= last (bytes.Compare)
      wf_ttext t          the same for a ToUnicode file; all text values valid
-     blocks_depth_ok rr  in every bfrange block (chunks of chunkSize = 100) the k-th entry with a list of m <> 1
-                         values satisfies 3k+3+m <= 500 (the operand stack of the PostScript interpreter)
+     lists_ok rr         no range has more than 497 values
+     depth_ok 0 c        in the bfrange block c the k-th entry with a list of m <> 1 values satisfies
+                         3k+3+m <= 500 (the operand stack of the PostScript interpreter)
      normalize_c/_t      what reading back does: every list sorted by code (the interpreter's endcmap),
                          WMode 1 or else 0, CIDSystemInfo through readCMap's clamping
      csr_ok csr          at most 100 well-formed code space ranges
@@ -358,26 +359,42 @@ Theorem cmap_text_rt :
 Proof. exact cmap_text_rt_lemma. Qed.
 Print Assumptions cmap_text_rt.
 
-(* the same for ToUnicode files whose bfrange blocks fit the operand stack *)
+(* the same for ToUnicode files; the only size condition: no range carries more than 497 values (the first
+   entry of a bfrange block needs 3 + m <= 500 interpreter operands; rangeChunks starts a new block whenever
+   more than 400 would be needed) *)
 Theorem tounicode_text_rt :
-  forall t, wf_ttext t -> blocks_depth_ok (tt_ranges t) -> read_tokens_tu (write_tokens_tu t) = Some (normalize_t t).
+  forall t, wf_ttext t -> lists_ok (tt_ranges t) -> read_tokens_tu (write_tokens_tu t) = Some (normalize_t t).
 Proof. exact tounicode_text_rt_lemma. Qed.
 Print Assumptions tounicode_text_rt.
 
-Theorem blocks_depth_ok_lists_200 :
-  forall rr : list trange, Forall (fun r : trange => (length (snd r) <= 200)%nat) rr -> blocks_depth_ok rr.
-Proof. exact blocks_depth_ok_short. Qed.
-Print Assumptions blocks_depth_ok_lists_200.
+(* rangeChunks: the blocks are the list, cut into pieces of 1..100 ranges that fit the operand stack *)
+Theorem range_chunks_exact :
+  forall x, lists_ok x ->
+    concat (range_chunks x) = x /\
+    Forall (fun c => (1 <= length c <= 100)%nat /\ depth_ok 0 c = true) (range_chunks x).
+Proof. exact range_chunks_spec. Qed.
+Print Assumptions range_chunks_exact.
 
-(* without the operand-stack condition the statement is false
-   (finding tounicode-extract-operand-stack-overflow): entry 99 of a block with 201 values *)
-Definition tounicode_text_rt_full : Prop :=
-  forall t, wf_ttext t -> read_tokens_tu (write_tokens_tu t) = Some (normalize_t t).
+(* files built by NewToUnicodeFile never have more than 256 values in a range *)
+Theorem new_tounicode_lists_256 :
+  forall csr es, wf_entries text es ->
+    Forall (fun r : trange => (length (snd r) <= 256)%nat) (t_ranges (new_tounicode_bytes csr es)).
+Proof. exact new_tounicode_lists. Qed.
+Print Assumptions new_tounicode_lists_256.
 
-Theorem tounicode_text_rt_refuted :
-  exists t, wf_ttext t /\ read_tokens_tu (write_tokens_tu t) <> Some (normalize_t t).
-Proof. exact tounicode_text_refuted. Qed.
-Print Assumptions tounicode_text_rt_refuted.
+(* F48 (fixed in /repo): the writer as it was before put up to 100 ranges into a block whatever their value
+   lists; entry 99 of a block with 201 values needs 501 operands and the interpreter refuses the text *)
+Theorem tounicode_text_rt_prefix_refuted :
+  exists t, wf_ttext t /\ lists_ok (tt_ranges t) /\ read_tokens_tu (write_tokens_tu_prefix t) <> Some (normalize_t t).
+Proof. exact tounicode_text_prefix_refuted. Qed.
+Print Assumptions tounicode_text_rt_prefix_refuted.
+
+Example f48_witness_now_right : read_tokens_tu (write_tokens_tu deep_text) = Some (normalize_t deep_text).
+Proof. apply tounicode_text_rt_lemma; apply deep_text_wf. Qed.
+
+(* the bound 497 is exact: one range with 498 values is beyond the interpreter's stack (hand-made files only) *)
+Example list_498_refused : read_tokens_tu (write_tokens_tu long_list_text) = None.
+Proof. exact long_list_refused. Qed.
 
 (* SetMapping, then write, then read: same name, parent name, WMode, code space, the same LookupCID for
    every code, the same enumeration *)
@@ -392,11 +409,10 @@ Theorem embed_extract_lookup :
 Proof. exact embed_extract_cid_codes. Qed.
 Print Assumptions embed_extract_lookup.
 
-(* NewToUnicodeFile, then write, then read *)
+(* NewToUnicodeFile, then write, then read: no size condition (ranges have at most 256 values) *)
 Theorem embed_extract_lookup_tounicode :
   forall csr data name pn p,
     csr_ok csr -> prefix_free csr -> tu_data_ok csr data -> tu_data_valid data ->
-    blocks_depth_ok (t_ranges (new_tounicode csr data)) ->
     exists t', read_tokens_tu (write_tokens_tu (ttext_of name pn (new_tounicode csr data))) = Some t' /\
       tt_parent t' = pn /\
       (forall s, in_csr (tt_csr t') s = in_csr csr s) /\
@@ -416,7 +432,7 @@ Print Assumptions cmap_bytes_rt.
 Theorem tounicode_bytes_rt :
   forall (print : list token -> bytes) (tokenize : bytes -> option (list token)),
     (forall t, wf_ttext t -> tokenize (print (write_tokens_tu t)) = Some (write_tokens_tu t)) ->
-    forall t, wf_ttext t -> blocks_depth_ok (tt_ranges t) ->
+    forall t, wf_ttext t -> lists_ok (tt_ranges t) ->
               read_bytes_tu tokenize (write_bytes_tu print t) = Some (normalize_t t).
 Proof. exact tounicode_bytes_rt_lemma. Qed.
 Print Assumptions tounicode_bytes_rt.
@@ -450,12 +466,12 @@ Proof. vm_compute. reflexivity. Qed.
 Definition ex_ttext : ttext :=
   TText [78] None [([0], [255])] [([90], [97; 128512])] [([65], [67], [[55295]; [65533]; [65534]]); ([70], [72], [[120]])].
 
-Example ex_ttext_wf : wf_ttext ex_ttext /\ blocks_depth_ok (tt_ranges ex_ttext).
+Example ex_ttext_wf : wf_ttext ex_ttext /\ lists_ok (tt_ranges ex_ttext).
 Proof.
   split.
   - unfold wf_ttext, ex_ttext, csr_wf, tsingle_wf, trange_full_wf, valid_text; cbn.
     repeat split; repeat constructor; cbn; try discriminate; try lia.
-  - apply blocks_depth_ok_short. repeat constructor; cbn; lia.
+  - unfold lists_ok. repeat constructor; cbn; lia.
 Qed.
 
 Example ex_ttext_rt : read_tokens_tu (write_tokens_tu ex_ttext) = Some ex_ttext.
